@@ -186,17 +186,7 @@ forms!(masked::Dna, oracle::MDNA, 32, 2, mdna;
     c03_t_mdna_range c03_t_mdna_incl c03_t_mdna_to c03_t_mdna_toincl c03_t_mdna_from c03_t_mdna_full c03_t_mdna_nest3
     c03_t_mdna_oob_range_xp c03_t_mdna_oob_index_xp c03_t_mdna_oob_incl_xp c03_t_mdna_oob_open_xp);
 
-// text::Dna: every byte is a storable pattern but only A,C,G,T,N are symbols;
-// compare raw codes (unsafe_from_bits is the identity wrapper for this codec)
-pub const TEXT_RAW: Alpha = {
-    let mut a = oracle::alpha(8, &[], &[], &[]);
-    let mut i = 0;
-    while i < 256 {
-        a.from_bits[i] = i as i16;
-        i += 1;
-    }
-    a
-};
+use crate::oracle::TEXT_RAW;
 forms!(text::Dna, TEXT_RAW, 24, 3, text;
     c03_q_text_range c03_t_text_incl c03_t_text_to c03_t_text_toincl c03_t_text_from c03_t_text_full c03_t_text_nest3
     c03_t_text_oob_range_xp c03_t_text_oob_index_xp c03_t_text_oob_incl_xp c03_t_text_oob_open_xp);
